@@ -21,7 +21,7 @@ pub enum Kind {
     Unsigned,
 }
 
-pub trait Sc: BaseNum + 'static {
+pub trait Sc: BaseNum + num_traits::NumCast + num_traits::Bounded + 'static {
     const NAME: &'static str;
     const KIND: Kind;
     fn enc(self) -> String;
